@@ -689,19 +689,39 @@ pub fn check_drops(w: &mut World) {
             w.violate_f(Oracle::DV, f, format!("value t{} produced by {} was never dropped (leaked)", t, p));
         }
     }
-    // everything that was returned must have been produced by a child
+    // everything that was returned must have been produced by a child; the
+    // combinator to blame is the innermost one that handed the value out
     if let Some(top) = w.top {
-        let mut bad = None;
-        for p in &w.nodes[top].polls {
-            if let Answer::Ready(s) | Answer::Item(s) = &p.answer {
-                if let Some(t) = s.has_unknown() {
-                    bad = Some(t);
+        let mut bad: Option<(usize, NodeId, u32)> = None; // (depth, node, handle)
+        for n in &w.nodes {
+            if n.is_leaf() {
+                continue;
+            }
+            let mut handle = None;
+            for p in &n.polls {
+                if let Answer::Ready(s) | Answer::Item(s) = &p.answer {
+                    if let Some(t) = s.has_unknown() {
+                        handle = Some(t);
+                    }
+                }
+            }
+            if let Some(t) = handle {
+                let mut depth = 0;
+                let mut cur = n.parent;
+                while let Some(p) = cur {
+                    depth += 1;
+                    cur = w.nodes[p].parent;
+                }
+                if bad.map(|b| depth > b.0).unwrap_or(true) {
+                    bad = Some((depth, n.id, t));
                 }
             }
         }
-        if let Some(t) = bad {
-            let f = w.nodes[top].family();
-            w.violate_f(Oracle::DV, f, format!("the combinator returned a value (handle {:#x}) that no child produced", t));
+        if let Some((_, id, t)) = bad {
+            let f = w.nodes[id].family();
+            let who = w.path(id);
+            let _ = top;
+            w.violate_f(Oracle::DV, f, format!("{} returned a value (handle {:#x}) that no child produced", who, t));
         }
     }
 }
